@@ -74,6 +74,7 @@ fn main() {
     let code = if let Some(file) = replay {
         let (_kind, name, path) = explore::read_replay(&file);
         match id.as_str() {
+            "C01" => print_replay(&id, props::c01::replay(&name, &path)),
             "C02" => print_replay(&id, props::c02::replay(&name, &path)),
             "C03" => print_replay(&id, props::c03::replay(&name, &path)),
             "C04" => print_replay(&id, props::c04::replay(&name, &path)),
@@ -99,6 +100,7 @@ fn main() {
         }
     } else {
         match id.as_str() {
+            "C01" => props::c01::check(&tier),
             "C02" => props::c02::check(&tier),
             "C03" => props::c03::check(&tier),
             "C04" => props::c04::check(&tier),
